@@ -405,7 +405,7 @@ def libfuzzer(ctx):
         shutil.rmtree(d, ignore_errors=True)
 
 def run(ctx):
-    for config in ctx.configs:
+    for config in ctx.cfgs():
         u = U(ctx, config)
         wl_keys_sigs(u); wl_musig(u); wl_adaptor_s2c_ell(u); wl_zkp(u); wl_surj_wl(u); wl_bppp_halfagg(u); wl_crafted(u); wl_crafted_rings(u)
     if not ctx.quick: libfuzzer(ctx)
